@@ -8,7 +8,8 @@ From SP Require Import Base.Result Base.Bytes Base.Crc16 Base.Crc16Facts Base.Cr
   Model.SpacePacket Model.PusTc Model.PusTm Spec.PusSpec Model.PduHeader Spec.PduHeaderSpec
   Model.FileData Spec.FileDataSpec Proofs.CorruptProofs Proofs.CorruptCfdp
   Model.Eof Model.Ack Model.Prompt Model.KeepAlive Spec.PduASpec Proofs.EofProofs Proofs.DirectiveCrc Proofs.PduACrc
-  Model.Finished Model.Metadata Spec.PduBSpec Proofs.CorruptCfdpB.
+  Model.Finished Model.Metadata Spec.PduBSpec Proofs.CorruptCfdpB
+  Model.Nak Spec.PduCSpec Proofs.NakCrc Model.FileDirective Model.Factory Proofs.CfdpPackCrc Proofs.CorruptFactory.
 Import ListNotations.
 Open Scope Z_scope.
 
@@ -108,6 +109,117 @@ Theorem C04_md_corrupt_rejected : forall c q o e, md_valid c q o -> cf_crc c = 1
 Proof. exact md_corrupt_rejected. Qed.
 Print Assumptions C04_md_corrupt_rejected.
 
+Theorem C04_nak_corrupt_rejected : forall c q e, nak_valid c q -> cf_crc c = 1 ->
+  burst16 e -> length e = length (nak_layout c q) -> length_fields_untouched e ->
+  exists x, nak_unpack (xor_bytes (nak_layout c q) e) = Err x /\ documented x = true.
+Proof. exact nak_corrupt_rejected. Qed.
+Print Assumptions C04_nak_corrupt_rejected.
+
+(* --- "every uncorrupted packed packet passes the check ... whatever fields were set or changed
+       before packing", CFDP: for EVERY object of each PDU class (valid parameters or not, after
+       any setter history), whenever pack() returns octets b and the object's header carries the
+       CRC flag, the CRC-16 over b is zero -- which is the check verify_length_and_checksum makes.
+       `wf_bytes b`: the returned value is a bytearray (cells 0..255), the standing convention for
+       octet strings.  (That the decoder then returns the same object: C06 round trips.) --- *)
+Theorem C04_fd_pack_always_valid : forall p b, FileData.fd_pack p = Ok b ->
+  cf_crc (h_conf (FileData.fd_hdr p)) = 1 -> wf_bytes b -> crc16 b = 0.
+Proof. exact fd_pack_crc_valid. Qed.
+Print Assumptions C04_fd_pack_always_valid.
+Theorem C04_eof_pack_always_valid : forall p b, eof_pack p = Ok b ->
+  cf_crc (h_conf (FileDirective.fd_hdr (eof_fd p))) = 1 -> wf_bytes b -> crc16 b = 0.
+Proof. exact eof_pack_crc_valid. Qed.
+Print Assumptions C04_eof_pack_always_valid.
+Theorem C04_ack_pack_always_valid : forall p b, ack_pack p = Ok b ->
+  cf_crc (h_conf (FileDirective.fd_hdr (ack_fd p))) = 1 -> wf_bytes b -> crc16 b = 0.
+Proof. exact ack_pack_crc_valid. Qed.
+Print Assumptions C04_ack_pack_always_valid.
+Theorem C04_prompt_pack_always_valid : forall p b, prompt_pack p = Ok b ->
+  cf_crc (h_conf (FileDirective.fd_hdr (pr_fd p))) = 1 -> wf_bytes b -> crc16 b = 0.
+Proof. exact prompt_pack_crc_valid. Qed.
+Print Assumptions C04_prompt_pack_always_valid.
+Theorem C04_ka_pack_always_valid : forall p b, ka_pack p = Ok b ->
+  cf_crc (h_conf (FileDirective.fd_hdr (ka_fd p))) = 1 -> wf_bytes b -> crc16 b = 0.
+Proof. exact ka_pack_crc_valid. Qed.
+Print Assumptions C04_ka_pack_always_valid.
+Theorem C04_fin_pack_always_valid : forall p b, fin_pack p = Ok b ->
+  cf_crc (h_conf (FileDirective.fd_hdr (fin_fdir p))) = 1 -> wf_bytes b -> crc16 b = 0.
+Proof. exact fin_pack_crc_valid. Qed.
+Print Assumptions C04_fin_pack_always_valid.
+Theorem C04_md_pack_always_valid : forall p b, md_pack p = Ok b ->
+  cf_crc (h_conf (FileDirective.fd_hdr (md_fdir p))) = 1 -> wf_bytes b -> crc16 b = 0.
+Proof. exact md_pack_crc_valid. Qed.
+Print Assumptions C04_md_pack_always_valid.
+Theorem C04_nak_pack_always_valid : forall p b, nak_pack p = Ok b ->
+  cf_crc (nk_conf p) = 1 -> wf_bytes b -> crc16 b = 0.
+Proof. exact nak_pack_crc_valid. Qed.
+Print Assumptions C04_nak_pack_always_valid.
+(* all eight at once, as PduHolder.pack sees them (pdu_crc_flag p = the flag above, per class) *)
+Theorem C04_pdu_pack_always_valid : forall p b, pdu_pack p = Ok b -> pdu_crc_flag p = 1 ->
+  wf_bytes b -> crc16 b = 0.
+Proof. exact pdu_pack_crc_valid. Qed.
+Print Assumptions C04_pdu_pack_always_valid.
+Example C04_pack_always_valid_inhabited : exists p b,
+  FileData.fd_new ex_conf {| FileData.fp_data := [7]; FileData.fp_offset := 0; FileData.fp_meta := None |} = Ok (p, ex_conf) /\
+  pdu_pack (PFileData p) = Ok b /\ pdu_crc_flag (PFileData p) = 1 /\ wf_bytes b /\ length b = 14%nat.
+Proof. exact pack_crc_example. Qed.
+
+(* --- the same corruption clause through PduFactory.from_raw, all eight kinds.  Excluded
+       positions: octets 1, 2, 3 and bit 1 (value 2, the CRC flag) of octet 0 -- nothing else; in
+       particular the PDU-type bit of octet 0 and the directive-code octet MAY be hit.
+       no_object r: r is a documented error, or the factory's None (returned without an exception
+       when the directive code has become 0x0A, which it does not dispatch on; see
+       fac_none_example in Proofs/CorruptFactory.v) -- never `Ok (Some pdu)`. --- *)
+Theorem C04_factory_no_object_def : forall r, no_object r <->
+  match r with Ok (Some _) => False | Ok None => True | Err x => documented x = true end.
+Proof. intros r. reflexivity. Qed.
+Print Assumptions C04_factory_no_object_def.
+Theorem C04_fac_fd_corrupt_rejected : forall c q e, fd_valid c q -> cf_crc c = 1 ->
+  burst16 e -> length e = length (fd_layout c q) -> cfdp_untouched e ->
+  no_object (fac_from_raw (xor_bytes (fd_layout c q) e)).
+Proof. exact fac_fd_corrupt_rejected. Qed.
+Print Assumptions C04_fac_fd_corrupt_rejected.
+Theorem C04_fac_eof_corrupt_rejected : forall c q e, eof_valid c q -> cf_crc c = 1 ->
+  burst16 e -> length e = length (eof_layout c q) -> cfdp_untouched e ->
+  no_object (fac_from_raw (xor_bytes (eof_layout c q) e)).
+Proof. exact fac_eof_corrupt_rejected. Qed.
+Print Assumptions C04_fac_eof_corrupt_rejected.
+Theorem C04_fac_ack_corrupt_rejected : forall c q e, ack_valid c q -> cf_crc c = 1 ->
+  burst16 e -> length e = length (ack_layout c q) -> cfdp_untouched e ->
+  no_object (fac_from_raw (xor_bytes (ack_layout c q) e)).
+Proof. exact fac_ack_corrupt_rejected. Qed.
+Print Assumptions C04_fac_ack_corrupt_rejected.
+Theorem C04_fac_prompt_corrupt_rejected : forall c rr e, prompt_valid c rr -> cf_crc c = 1 ->
+  burst16 e -> length e = length (prompt_layout c rr) -> cfdp_untouched e ->
+  no_object (fac_from_raw (xor_bytes (prompt_layout c rr) e)).
+Proof. exact fac_prompt_corrupt_rejected. Qed.
+Print Assumptions C04_fac_prompt_corrupt_rejected.
+Theorem C04_fac_ka_corrupt_rejected : forall c v e, ka_valid c v -> cf_crc c = 1 ->
+  burst16 e -> length e = length (ka_layout c v) -> cfdp_untouched e ->
+  no_object (fac_from_raw (xor_bytes (ka_layout c v) e)).
+Proof. exact fac_ka_corrupt_rejected. Qed.
+Print Assumptions C04_fac_ka_corrupt_rejected.
+Theorem C04_fac_fin_corrupt_rejected : forall c q e, fin_valid c q -> cf_crc c = 1 ->
+  burst16 e -> length e = length (fin_layout c q) -> cfdp_untouched e ->
+  no_object (fac_from_raw (xor_bytes (fin_layout c q) e)).
+Proof. exact fac_fin_corrupt_rejected. Qed.
+Print Assumptions C04_fac_fin_corrupt_rejected.
+Theorem C04_fac_md_corrupt_rejected : forall c q o e, md_valid c q o -> cf_crc c = 1 ->
+  burst16 e -> length e = length (md_layout c q o) -> cfdp_untouched e ->
+  no_object (fac_from_raw (xor_bytes (md_layout c q o) e)).
+Proof. exact fac_md_corrupt_rejected. Qed.
+Print Assumptions C04_fac_md_corrupt_rejected.
+Theorem C04_fac_nak_corrupt_rejected : forall c q e, nak_valid c q -> cf_crc c = 1 ->
+  burst16 e -> length e = length (nak_layout c q) -> cfdp_untouched e ->
+  no_object (fac_from_raw (xor_bytes (nak_layout c q) e)).
+Proof. exact fac_nak_corrupt_rejected. Qed.
+Print Assumptions C04_fac_nak_corrupt_rejected.
+(* the None outcome exists: one flipped bit turns the NAK code 08 into 0A *)
+Example C04_fac_none_inhabited :
+  let L := nak_layout fx_conf {| np_start := 0; np_end := 1; np_segs := [] |} in
+  let e := repeat 0 7 ++ [2] ++ repeat 0 10 in
+  burst16 e /\ length e = length L /\ cfdp_untouched e /\ fac_from_raw (xor_bytes L e) = Ok None.
+Proof. exact fac_none_example. Qed.
+
 (* --- refuted part, protocol-inherent: flipping the CRC flag itself (a single-bit error that
        leaves octets 1-3 alone) makes the decoder skip verification; the PDU is accepted with the
        CRC trailer folded into the file data.  Known finding C04/<Pdu>.unpack/crc-flag-bit. --- *)
@@ -119,6 +231,32 @@ Theorem C04_pdu_crcflag_flip_refuted :
              length (fp_data (fd_params p')) = 3%nat.
 Proof. exact pdu_crcflag_flip_refuted. Qed.
 Print Assumptions C04_pdu_crcflag_flip_refuted.
+
+(* the same hole for directive PDUs.  ACK 2a 00 05 00 01 03 02 06 40 01 ed 1c with the flag bit
+   flipped is accepted (the CRC octets are ignored), also by the factory.  EOF: the trailer is read
+   as the optional fault-location TLV, so acceptance needs a CRC that looks like an entity-ID TLV:
+   file size 48178 gives 06 00. *)
+Theorem C04_ack_crcflag_flip_refuted :
+  ack_valid fx_conf fx_ack /\ cf_crc fx_conf = 1 /\
+  let e := 2 :: repeat 0 11 in
+  burst16 e /\ length e = length (ack_layout fx_conf fx_ack) /\
+  nth 1 e 0 = 0 /\ nth 2 e 0 = 0 /\ nth 3 e 0 = 0 /\
+  exists p', ack_unpack (xor_bytes (ack_layout fx_conf fx_ack) e) = Ok p' /\
+             ack_code p' = 4 /\ ack_status p' = 1 /\
+             cf_crc (h_conf (FileDirective.fd_hdr (ack_fd p'))) = 0 /\
+             fac_from_raw (xor_bytes (ack_layout fx_conf fx_ack) e) = Ok (Some (PAck p')).
+Proof. exact ack_crcflag_flip_refuted. Qed.
+Print Assumptions C04_ack_crcflag_flip_refuted.
+Theorem C04_eof_crcflag_flip_refuted :
+  eof_valid fx_conf fx_eof /\ cf_crc fx_conf = 1 /\
+  let e := 2 :: repeat 0 18 in
+  burst16 e /\ length e = length (eof_layout fx_conf fx_eof) /\
+  nth 1 e 0 = 0 /\ nth 2 e 0 = 0 /\ nth 3 e 0 = 0 /\
+  exists p', eof_unpack (xor_bytes (eof_layout fx_conf fx_eof) e) = Ok p' /\
+             eof_size p' = 48178 /\ cf_crc (h_conf (FileDirective.fd_hdr (eof_fd p'))) = 0 /\
+             eof_fault p' = Some {| Tlv.tlv_type := 6; Tlv.tlv_value := [] |}.
+Proof. exact eof_crcflag_flip_refuted. Qed.
+Print Assumptions C04_eof_crcflag_flip_refuted.
 
 Example C04_burst_inhabited : burst16 (repeat 0 7 ++ [2 ^ 3] ++ repeat 0 8) /\
   len_field_untouched (repeat 0 7 ++ [2 ^ 3] ++ repeat 0 8).
